@@ -382,21 +382,41 @@ def splice_item(item, contracts, unit_name, used, canaries):
             if ins["where"] == "before":
                 lines[i:i] = blk
             else:
-                lines[i + 1:i + 1] = blk
+                # extend to the end of the statement that starts on line i (balanced brackets)
+                depth = 0
+                e = i
+                while e < len(lines):
+                    for ch in lines[e]:
+                        if ch in "([{":
+                            depth += 1
+                        elif ch in ")]}":
+                            depth -= 1
+                    if depth <= 0:
+                        break
+                    e += 1
+                lines[e + 1:e + 1] = blk
             text = text[:start] + "\n".join(lines) + text[end:]
         used.add(q)
 
     # ---- loop contracts
+    # loops are anchored by their header text; among loops with the same header, by order of occurrence
+    # (so an inserted or removed unrelated loop does not lose the anchors of the others)
+    occ = {}
+
     def loop_sub(m):
         q, idx, head = m.group(1), int(m.group(2)), _unescape(m.group(3))
         c = contracts.get(q)
-        if not c or idx not in c.loops:
+        if not c or not c.loops:
             return ""
-        spec = c.loops[idx]
-        if _nows(spec["head"]) != _nows(head):
-            raise Undecided("lost-anchor", f"{q}: loop #{idx} header is `{head}`, contract expects `{spec['head']}`")
-        spec["_seen"] = True
-        return "\x00LOOP\x00" + f"{q}\x01{idx}\x00"
+        key = (q, _nows(head))
+        k = occ.get(key, 0)
+        occ[key] = k + 1
+        same = [i for i in sorted(c.loops) if _nows(c.loops[i]["head"]) == _nows(head)]
+        if k >= len(same):
+            return ""   # a loop the contracts do not mention: verus will demand what it needs (invariants / decreases)
+        cidx = same[k]
+        c.loops[cidx]["_seen"] = True
+        return "\x00LOOP\x00" + f"{q}\x01{cidx}\x00"
 
     text = LOOP_RE.sub(loop_sub, text)
     while True:
